@@ -973,6 +973,8 @@ def run(ctx: Ctx) -> None:
     e16s = ("sym", 4, [1, 8192])
     e32 = ("sym", 4, [1, 2 ** 29 - 1, 2 ** 29])
     big = ("sym", 4, [1, 10 ** 12])
+    # distances beyond int32 (the EA runs on whatever the instance stores)
+    big31 = ("sym", 4, [2 ** 31 - 1, 2 ** 31, 3 * 10 ** 9])
     met = [("met6", k, None) for k in range(3)]
     f4b = ("sym", 4, [1, 2])
     _warm([f4, e8, e16, e32])
@@ -1000,7 +1002,9 @@ def run(ctx: Ctx) -> None:
     tot_agree = 0
     if quick:
         plan = [(f4, 2, None, True, ALGOS), (f4b, 3, None, False, ALGOS),
-                (f5, 2, 64, True, ALGOS)]
+                (f5, 2, 64, True, ALGOS),
+                (big, 2, None, False, ("ea",)),
+                (big31, 2, None, False, ("ea",))]
         ctx.cap("quick, solve(): 3 loop iterations only on the 64 4-city "
                 "matrices over {1,2}; 5 cities only on the first 64 "
                 "matrices, 2 iterations")
@@ -1011,7 +1015,8 @@ def run(ctx: Ctx) -> None:
                 (f5, 2, None, True, ALGOS), (f5, 3, 16, False, ALGOS),
                 (("met6", 1, 3), 2, None, False, ALGOS),
                 (e16s, 3, None, False, ALGOS),
-                (big, 3, None, False, ("ea",))]
+                (big, 3, None, False, ("ea",)),
+                (big31, 3, None, False, ("ea",))]
         ctx.cap("solve(): 4 loop iterations only on the 64 4-city matrices "
                 "over {1,2}; 5 cities: 3 iterations on the first 16 "
                 "matrices; 6 cities: 8 matrices, 2 iterations")
